@@ -9,3 +9,6 @@ type verifStreamSnap struct{}
 func verifStreamPre(s *Stream) verifStreamSnap                         { return verifStreamSnap{} }
 func verifStreamRead(s *Stream, pre verifStreamSnap, n int, err error) {}
 func verifStreamReset(s *Stream, pre verifStreamSnap)                  {}
+
+func verifCacheGate(point string, typeptr uintptr)                            {}
+func verifCacheReturn(path string, typeptr uintptr, index uintptr, d Decoder) {}
